@@ -123,6 +123,62 @@ def announceR {V E : Type} [DecidableEq E] (o : Oracle V E) (e : Entry V E) (now
 def announce {V E : Type} [DecidableEq E] (o : Oracle V E) (e : Entry V E) (now : Int) (ev : Ev V E) : Out V E :=
   announceR o e now (resolve o ev)
 
+/-! ### the time stamp argument -/
+
+/-- the `timestamp` argument of `announceUpdate` -/
+inductive TsArg where
+  | absent                -- `None` (the default)
+  | ticks (t : Int)       -- a finite number (`0` is Python's falsy `0` / `0.0`)
+  | nonfinite             -- `nan`, `inf`, `-inf`
+  deriving DecidableEq, Repr
+
+/-- lines 522-524: `if not timestamp or not math.isfinite(timestamp): timestamp = time.time()` — the time stamp
+the funnel works with, given the argument and what the clock would return -/
+def effTimestamp (arg : TsArg) (clock : Int) : Int :=
+  match arg with
+  | .absent => clock
+  | .ticks t => if t = 0 then clock else t
+  | .nonfinite => clock
+
+/-- does the call read the clock? (only then `time.time()` is evaluated) -/
+def readsClock (arg : TsArg) : Bool :=
+  match arg with
+  | .absent => true
+  | .ticks t => t == 0
+  | .nonfinite => true
+
+/-! ### parameter callbacks (`paramCallbacks`, `addCallback`, `registerCallbacks`) -/
+
+/-- how a call of a callback function ends (oracle): it returns, it raises `TypeError` (the documented case: an
+`update_<param>` that does not take the `<exc>` argument), or it raises another subclass of `Exception` -/
+inductive CbOutcome where
+  | ok
+  | typeError
+  | other
+  deriving DecidableEq, Repr
+
+/-- which outcomes the `except` clause around the callback call catches, given the class names it lists
+(generated from the source: `Generated.C05.callbackCaught`) -/
+def catches (names : List String) : CbOutcome → Bool
+  | .ok => true
+  | .typeError => names.any (fun n => n == "TypeError" || n == "Exception" || n == "BaseException")
+  | .other => names.any (fun n => n == "Exception" || n == "BaseException")
+
+/-- lines 547-551: the loop over the callbacks; `true` = the loop ran to its end, `false` = an exception escaped
+(the rest of `announceUpdate`, i.e. the notification, is skipped) -/
+def runCallbacks (caught : CbOutcome → Bool) : List CbOutcome → Bool
+  | [] => true
+  | oc :: rest => if caught oc then runCallbacks caught rest else false
+
+/-- `announceUpdate` with callbacks: they run after value, time stamp and error are stored and before the
+dispatcher is told -/
+def announceC {V E : Type} [DecidableEq E] (o : Oracle V E) (caught : CbOutcome → Bool) (e : Entry V E) (now : Int)
+    (r : VE V E) (cbs : List CbOutcome) : Out V E :=
+  if emits o e now r then
+    let e' := commit (storeValue e r) now r
+    if runCallbacks caught cbs then ⟨e', some (mkMsg e')⟩ else ⟨e', none⟩
+  else ⟨storeValue e r, none⟩
+
 /-! ### event producers -/
 
 /-- outcome of the driver's `read_<p>` -/
@@ -194,6 +250,23 @@ structure Run (V E : Type) where
   entry : Entry V E
   msgs : List (Msg V E)
   deriving Repr
+
+/-- one call of the funnel with the outcomes of the callbacks registered for the parameter -/
+structure CEv (V E : Type) where
+  now : Int
+  r : VE V E
+  cbs : List CbOutcome
+  deriving Repr
+
+def CEv.plain {V E : Type} (x : CEv V E) : REv V E := ⟨x.now, x.r⟩
+
+def runC {V E : Type} [DecidableEq E] (o : Oracle V E) (caught : CbOutcome → Bool) :
+    Entry V E → List (CEv V E) → Run V E
+  | e, [] => ⟨e, []⟩
+  | e, x :: xs =>
+    let out := announceC o caught e x.now x.r x.cbs
+    let r := runC o caught out.entry xs
+    ⟨r.entry, out.msg.toList ++ r.msgs⟩
 
 def runR {V E : Type} [DecidableEq E] (o : Oracle V E) : Entry V E → List (REv V E) → Run V E
   | e, [] => ⟨e, []⟩
